@@ -66,6 +66,16 @@ DigitsVal(t, p, q, acc) == IF p >= q THEN acc
                            ELSE DigitsVal(t, p + 1, q, [v |-> acc.v * 10 + (t[p] - 48), big |-> FALSE])
 RECURSIVE Pow10(_)
 Pow10(n) == IF n = 0 THEN 1 ELSE 10 * Pow10(n - 1)
+\* a plain integer numeral (digit code units d, sign) that fits the 64-bit types: non-negative <= 2^64-1, negative >= -2^63
+RECURSIVE DigitsLeq(_, _, _)
+DigitsLeq(a, b, i) == IF i > Len(a) THEN TRUE ELSE IF a[i] < b[i] THEN TRUE ELSE IF a[i] > b[i] THEN FALSE ELSE DigitsLeq(a, b, i + 1)     \* equal lengths
+MaxU64 == <<49, 56, 52, 52, 54, 55, 52, 52, 48, 55, 51, 55, 48, 57, 53, 53, 49, 54, 49, 53>>       \* 18446744073709551615
+MinI64 == <<57, 50, 50, 51, 51, 55, 50, 48, 51, 54, 56, 53, 52, 55, 55, 53, 56, 48, 56>>           \* 9223372036854775808
+FitsInt64(d, neg) == IF neg THEN (Len(d) < 19 \/ (Len(d) = 19 /\ DigitsLeq(d, MinI64, 1)))
+                     ELSE (Len(d) < 20 \/ (Len(d) = 20 /\ DigitsLeq(d, MaxU64, 1)))
+\* observed number y against the denoted number x
+NumMatch(x, y) == IF x.k = "bigint" THEN (y.k = "big" /\ y.neg = x.neg /\ y.d = x.d /\ y.kind = (IF x.neg = 1 THEN "i64" ELSE "u64"))
+                  ELSE (x.k = "approx" \/ y.k \in {"approx", "big"} \/ (x.m = y.m /\ (x.k = y.k \/ x.k = "real")))
 PNumber(t, p0) ==
     LET neg == At(t, p0) = 45
         p1  == IF neg THEN p0 + 1 ELSE p0
@@ -84,7 +94,7 @@ PNumber(t, p0) ==
                                 fp == IF hasfrac THEN DigitsVal(t, iend + 1, fend, [v |-> 0, big |-> FALSE]) ELSE [v |-> 0, big |-> FALSE]
                                 ep == IF hasexp THEN DigitsVal(t, es, eend, [v |-> 0, big |-> FALSE]) ELSE [v |-> 0, big |-> FALSE]
                                 eneg == hasexp /\ At(t, fend + 1) = 45
-                                small == ~ip.big /\ ~fp.big /\ ~ep.big /\ nf <= 4 /\ ep.v <= 6 /\ ip.v < 100000
+                                small == ~ip.big /\ ~fp.big /\ ~ep.big /\ nf <= 4 /\ ep.v <= 6 /\ ip.v < (IF hasfrac \/ hasexp THEN 100000 ELSE 40000000)
                                 \* mantissa D = ip * 10^nf + fp ; decimal exponent k = (+-)ep - nf ; twice the value = 2 * D * 10^k
                                 D == ip.v * Pow10(nf) + fp.v
                                 k == (IF eneg THEN 0 - ep.v ELSE ep.v) - nf
@@ -93,6 +103,8 @@ PNumber(t, p0) ==
                                 kind == IF ~hasfrac /\ ~hasexp THEN (IF neg THEN "i64" ELSE "u64") ELSE "real"
                                 num == IF small /\ twice.ok
                                        THEN [t |-> "N", k |-> (IF neg /\ D = 0 THEN "real" ELSE kind), m |-> (IF neg THEN 0 - twice.m ELSE twice.m)]
+                                       ELSE IF ~hasfrac /\ ~hasexp /\ FitsInt64(SubSeq(t, p1, iend - 1), neg)
+                                       THEN [t |-> "N", k |-> "bigint", m |-> 0, neg |-> (IF neg THEN 1 ELSE 0), d |-> SubSeq(t, p1, iend - 1)]   \* an integer that fits 64 bits: exact
                                        ELSE [t |-> "N", k |-> "approx", m |-> 0]
                             IN Ok(eend, num)
 
@@ -143,7 +155,7 @@ PMembers(t, p, acc, wd, depth) ==
 RECURSIVE DocMatch(_, _)
 DocMatch(x, y) ==
     IF x.t # y.t THEN FALSE
-    ELSE IF x.t = "N" THEN (x.k = "approx" \/ y.k = "approx" \/ (x.m = y.m /\ (x.k = y.k \/ x.k = "real")))
+    ELSE IF x.t = "N" THEN NumMatch(x, y)
     ELSE IF x.t = "S" THEN x.s = y.s
     ELSE IF x.t = "A" THEN Len(x.e) = Len(y.e) /\ \A i \in 1..Len(x.e) : DocMatch(x.e[i], y.e[i])
     ELSE IF x.t = "O" THEN Len(x.m) = Len(y.m) /\ \A i \in 1..Len(x.m) : x.m[i].k = y.m[i].k /\ DocMatch(x.m[i].v, y.m[i].v)
